@@ -38,8 +38,14 @@ pub fn rule_json(r: &Value) -> Value {
     let path = r["path"][1].as_str().unwrap().to_string();
     let mut uses_m = false;
     if r["path"][0].as_str() == Some("dyn") {
-        uses_m = true;
-        target.push_str("/@m");
+        if path.contains("@n") {
+            // the same expression with the marker under another name
+            markers.push(json!({"name": "n", "regex": "[a-z]+"}));
+            target.push_str("/@n");
+        } else {
+            uses_m = true;
+            target.push_str("/@m");
+        }
     }
     let hdrs: Vec<Value> = r["hdrs"].as_array().unwrap().iter().map(|h| {
         if s(h, "kind") == "match_regex" { uses_m = true; }
